@@ -126,17 +126,34 @@ func tempRoot(b core.TempTrieBackend, pos bool, vals []felt.Felt) (felt.Felt, er
 	return root, err
 }
 
-func checkTempTrieN(res *lib.Result, n int) {
+// tempVals: the item hashes of a temporary commitment trie with n items, a function of n alone (so that n is
+// the replay): small values, boundary felts, and zeros (a zero item hash is written as a no-op) at the first,
+// the last and some inner indices.
+func tempVals(n int) []felt.Felt {
+	bs := boundaryFelts()
+	vals := make([]felt.Felt, n)
+	for i := range vals {
+		switch {
+		case n >= 4 && (i == 2 || (i == 0 && n%3 == 0) || (i == n-1 && n%2 == 0) || (i > 4 && (i+n)%13 == 0)):
+			vals[i] = felt.Zero
+		case (i+n)%5 == 1:
+			vals[i] = hexFelt(bs[(i*7+n)%len(bs)])
+		default:
+			vals[i] = felt.FromUint64[felt.Felt](uint64(1000 + 7*i))
+		}
+	}
+	return vals
+}
+
+func checkTempTrieN(res *lib.Result, drv *lib.Driver, n int) {
 	for _, pos := range []bool{false, true} {
-		vals := make([]felt.Felt, n)
+		vals := tempVals(n)
 		m := map[string]felt.Felt{}
 		for i := range vals {
-			// deterministic values, one zero among them for n >= 4 (a zero hash is written as a no-op)
-			vals[i] = felt.FromUint64[felt.Felt](uint64(1000 + 7*i))
-			if n >= 4 && i == 2 {
-				vals[i] = felt.Zero
-			}
 			m[fmt.Sprintf("%x", i)] = vals[i]
+			if vals[i].IsZero() {
+				res.Hit("temp-trie:zero-item")
+			}
 		}
 		hf := crypto.HashFn(indPedersen)
 		if pos {
@@ -155,6 +172,27 @@ func checkTempTrieN(res *lib.Result, n int) {
 		res.Case(fmt.Sprintf("temptrie/%d/%v", n, pos), n >= 2)
 		res.Hit("family:temp-trie-h64")
 		rep := replayBody{Kind: "temptrie", State: []byte(fmt.Sprint(n))}
+		// the model's `commitmentOps` (theorem commitment_trie_canonical) against the real temporary tries
+		if drv != nil && n <= 300 && err == nil {
+			kind := "ped"
+			if pos {
+				kind = "pos"
+			}
+			line := "comm " + kind
+			for i := range vals {
+				line += " " + feltHex(&vals[i])
+			}
+			ans, derr := drv.AskAll([]string{line})
+			if derr != nil || len(ans) != 1 {
+				res.Fatalf("Lean driver died / answered short in family temp-trie: %v", derr)
+			} else {
+				res.Compared(1)
+				v, e := evalTerm(ans[0])
+				if e != nil || !v.Equal(&a) {
+					res.Mismatch(lib.Mismatch{Sig: "temp-trie-commitmentOps", Input: n, Model: clip(ans[0]), Impl: a.String()})
+				}
+			}
+		}
 		switch {
 		case err != nil:
 			violateOnce(res, "temp-trie-error", func() lib.Violation { return lib.Violation{Sig: "temp-trie-error", What: err.Error(), Replay: rep} })
@@ -181,7 +219,7 @@ func checkTempTrieN(res *lib.Result, n int) {
 	}
 }
 
-func checkTempTries(f lib.Flags, res *lib.Result, r *lib.RNG) {
+func checkTempTries(f lib.Flags, res *lib.Result, drv *lib.Driver, r *lib.RNG) {
 	ns := []int{0, 1, 2, 3, 4, 5, 7, 8, 9, 16, 17, 31, 33, 64, 100, 101, 102, 129, 257}
 	if f.Thorough() {
 		for i := 0; i < 40; i++ {
@@ -189,7 +227,10 @@ func checkTempTries(f lib.Flags, res *lib.Result, r *lib.RNG) {
 		}
 	}
 	sort.Ints(ns)
-	parallel(ns, func(_ int, n int) { checkTempTrieN(res, n) })
+	// (the driver is one sequential process: the cases run one after the other)
+	for _, n := range ns {
+		checkTempTrieN(res, drv, n)
+	}
 }
 
 var (
